@@ -68,7 +68,7 @@ Definition run_entry (e : N) (t : text) : result :=
   let net := drv_cfg in
   match e with
   | 0 => bip32_seed o_hmac512 o_mulG net t
-  | 1 => hd_seed net t
+  | 1 => hd_seed o_hmac512 o_mulG net t
   | 2 => hd_prv o_b58 o_mulG o_modsqrt net Bip32 t
   | 3 => hd_pub o_b58 o_mulG o_modsqrt net Bip32 t
   | 4 => hd_any o_b58 o_mulG o_modsqrt net Bip32 t
@@ -111,10 +111,18 @@ Definition run_payload (which : N) (o : obj) : option bytes :=
   | _ => hd_payload drv_cfg o
   end%N.
 
+(* Key.as_text() of a public key / ElectrumWallet.as_text(), for the model-side text check *)
+Definition run_text (o : obj) : outcome text :=
+  match o with
+  | OKey (Pub _) _ => public_key_text drv_cfg o
+  | OElectrum _ _ => electrum_text o
+  | _ => Raise E_OTHER
+  end.
+
 End Glue.
 
 Definition drv_table_size : N := N.of_nat (length table_cfgs).
 Definition drv_kinds_separated (i : N) : bool :=
   match nth_error table_cfgs (N.to_nat i) with Some c => kinds_separated c | None => false end.
 
-Extraction "../ml/c18.ml" drv_base text_of_utf32 run_entry run_payload drv_table_size drv_kinds_separated.
+Extraction "../ml/c18.ml" drv_base text_of_utf32 utf32_of_text run_entry run_payload run_text drv_table_size drv_kinds_separated.
